@@ -44,14 +44,16 @@ type visoCaseJ struct {
 	Fresh  bool     `json:"fresh,omitempty"`  // run every op on a freshly opened instance
 	Nofile int      `json:"nofile,omitempty"` // run the case with at most this many open file descriptors more than are open now (RLIMIT_NOFILE)
 
-	Decode   bool     `json:"decode,omitempty"`   // emit a Volume event: the image as decoded by isodec + the tree as walked by the harness
-	TitleID  []string `json:"titleId,omitempty"`  // PS3 mode: the TITLE_ID the script put into PARAM.SFO
-	NoCanon  bool     `json:"noCanon,omitempty"`  // do not read the whole image sequentially (huge images)
-	Reopen   int      `json:"reopen,omitempty"`   // C18: open the image this many more times and compare (masked) with the first
-	SleepMs  int      `json:"sleepMs,omitempty"`  // C18: pause before the re-opens
-	Parallel bool     `json:"parallel,omitempty"` // C18: do the re-opens concurrently
-	Burst    int      `json:"burst,omitempty"`    // C18, parallel: every re-opener first opens and closes the image this many times (all start together)
-	Between  []string `json:"between,omitempty"`  // C18: before every re-open, open, read and close an image of this other directory (and of Dir in the other mode)
+	Decode    bool     `json:"decode,omitempty"`    // emit a Volume event: the image as decoded by isodec + the tree as walked by the harness
+	TitleID   []string `json:"titleId,omitempty"`   // PS3 mode: the TITLE_ID the script put into PARAM.SFO
+	NoCanon   bool     `json:"noCanon,omitempty"`   // do not read the whole image sequentially (huge images)
+	Reopen    int      `json:"reopen,omitempty"`    // C18: open the image this many more times and compare (masked) with the first
+	SleepMs   int      `json:"sleepMs,omitempty"`   // C18: pause before the re-opens
+	Parallel  bool     `json:"parallel,omitempty"`  // C18: do the re-opens concurrently
+	Spellings []string `json:"spellings,omitempty"` // C18: successive opens name the directory differently (cyclically): "", slash, dot, updown, dslash
+	opens     int
+	Burst     int      `json:"burst,omitempty"`   // C18, parallel: every re-opener first opens and closes the image this many times (all start together)
+	Between   []string `json:"between,omitempty"` // C18: before every re-open, open, read and close an image of this other directory (and of Dir in the other mode)
 }
 
 type visoScriptJ struct {
@@ -115,10 +117,17 @@ type fileLike interface {
 }
 
 func openViso(root string, c *visoCaseJ) (fileLike, error) {
-	if c.OsFs {
-		return pfs.NewVirtualISO(afero.NewOsFs(), filepath.Join(append([]string{root}, c.Dir...)...), c.Ps3)
+	// spell: how the directory is named on this open ("" plain; "slash" trailing separator; "dot" "/." appended; "updown" "/x/.." appended)
+	sp := ""
+	if len(c.Spellings) > 0 {
+		sp = c.Spellings[c.opens%len(c.Spellings)]
+		c.opens++
 	}
-	return pfs.NewVirtualISO(afero.NewBasePathFs(afero.NewOsFs(), root), "/"+filepath.Join(c.Dir...), c.Ps3)
+	suffix := map[string]string{"": "", "slash": "/", "dot": "/.", "updown": "/zz/..", "dslash": "//"}[sp]
+	if c.OsFs {
+		return pfs.NewVirtualISO(afero.NewOsFs(), filepath.Join(append([]string{root}, c.Dir...)...)+suffix, c.Ps3)
+	}
+	return pfs.NewVirtualISO(afero.NewBasePathFs(afero.NewOsFs(), root), "/"+filepath.Join(c.Dir...)+suffix, c.Ps3)
 }
 
 // sequentialImage reads the whole view with an aligned 1 MiB buffer.
